@@ -440,6 +440,25 @@ def renderInlineReal (files : Files) (entry : Name) (kind : Kind) (data : List (
   (loadT .inlineU files entry kind (St.init data)).bind fun r =>
     (renderL .inlineU files (render .inlineU files fuel) .full r.1 r.2).map (·.1)
 
+/-! ## several renders through one loader -/
+
+/-- a request: entry, its class, the data -/
+abbrev Req := Name × Kind × List (Name × Value)
+
+/-- one render on a loader whose cache of prepared templates is `c`: the outcome and the cache
+afterwards (a failed render is taken to leave the cache alone) -/
+def renderOn (m : Mode) (files : Files) (fuel : Nat) (c : Cache) (q : Req) : Res (List Ev) × Cache :=
+  match (loadT m files q.1 q.2.1 { St.init q.2.2 with cache := c }).bind fun r =>
+      renderL m files (render m files fuel) .full r.1 r.2 with
+  | .ok r => (.ok r.1, r.2.cache)
+  | .err e => (.err e, c)
+  | .fuel => (.fuel, c)
+
+/-- `loader = TemplateLoader(dirs, auto_reload=…)`, then one `load(...).generate(...)` per request -/
+def renderSeq (m : Mode) (files : Files) (fuel : Nat) : Cache → List Req → List (Res (List Ev))
+  | _, [] => []
+  | c, q :: qs => (renderOn m files fuel c q).1 :: renderSeq m files fuel (renderOn m files fuel c q).2 qs
+
 mutual
 /-- resolved targets of the statically named includes in a stream, at any depth -/
 def targetsN : Node → List Name
